@@ -54,16 +54,21 @@ def schema_from_seed(seed):
     t_ref = None
     if tk:
         t_ref = {"mjd": round(float(g.uniform(50000, 59000)), 6), "scale": ["tcb", "utc"][tk % 2], "format": ["mjd", "jd", "isot"][tk % 3]}
-    return {"poly": poly, "noff": noff, "cols": cols, "units": units, "t_ref": t_ref}
+    # a library drawn in single precision (prior.sample(dtype=float32)) is stored as such
+    return {"poly": poly, "noff": noff, "cols": cols, "units": units, "t_ref": t_ref, "f4": bool(g.integers(0, 5) == 0)}
 
 
-def values_from_seed(seed, n, cols):
+def values_from_seed(seed, n, cols, f4=False):
     g = np.random.default_rng(seed)
     out = {}
     for c in cols:
         v = g.normal(size=n) * 10.0 ** g.integers(-3, 4, size=n)
         sp = g.random(n) < 0.15
         v[sp] = g.choice(SPECIAL, size=int(sp.sum()))
+        if f4:
+            with np.errstate(over="ignore", under="ignore"):
+                v = v.astype(np.float32).astype(float)
+            v[~np.isfinite(v)] = 1.0
         out[c] = v
     return out
 
@@ -86,7 +91,8 @@ def make_samples(schema, vals):
     s = tj.JokerSamples(poly_trend=schema["poly"], n_offsets=schema["noff"], t_ref=make_time(schema["t_ref"]))
     for c in schema["cols"]:
         un = schema["units"][c]
-        s[c] = vals[c] * og.unit(un) if un else vals[c]
+        v = np.asarray(vals[c], dtype=np.float32 if schema.get("f4") else float)
+        s[c] = v * og.unit(un) if un else v
     return s
 
 
@@ -165,7 +171,7 @@ def machine_factory(ctx):
 
         @precondition(lambda self: bool(self.model))
         @rule(k=st.integers(0, 2), seed=st.integers(0, 10**6), n=st.integers(1, 6),
-              kind=st.sampled_from(["extra", "missing", "reorder", "unit", "t_ref", "poly", "noff"]))
+              kind=st.sampled_from(["extra", "missing", "reorder", "unit", "t_ref", "poly", "noff", "dtype"]))
         def append_bad(self, k, seed, n, kind):
             self.step("append_bad", k=k, seed=seed, n=n, kind=kind)
 
@@ -195,7 +201,7 @@ def machine_factory(ctx):
         def do_write(self, k, seed, n):
             p = self.path(k)
             schema = schema_from_seed(seed)
-            vals = values_from_seed(seed + 1, n, schema["cols"])
+            vals = values_from_seed(seed + 1, n, schema["cols"], schema.get("f4"))
             s = make_samples(schema, vals)
             if os.path.exists(p):
                 h = sha(p)
@@ -215,7 +221,7 @@ def machine_factory(ctx):
         def do_overwrite(self, k, seed, n):
             p = self.path(k)
             schema = schema_from_seed(seed)
-            vals = values_from_seed(seed + 1, n, schema["cols"])
+            vals = values_from_seed(seed + 1, n, schema["cols"], schema.get("f4"))
             with ctx.sut("write(overwrite=True)"):
                 make_samples(schema, vals).write(p, overwrite=True)
             existed = k in self.model
@@ -226,7 +232,7 @@ def machine_factory(ctx):
         def do_append_same(self, k, seed, n):
             k = self._pick(k)
             schema, vals = self.model[k]
-            new = values_from_seed(seed, n, schema["cols"])
+            new = values_from_seed(seed, n, schema["cols"], schema.get("f4"))
             with ctx.sut("write(append=True) with an identical schema"):
                 make_samples(schema, new).write(self.path(k), append=True)
             self.model[k] = (schema, {c: np.concatenate([vals[c], new[c]]) for c in schema["cols"]})
@@ -270,13 +276,17 @@ def machine_factory(ctx):
             elif kind == "t_ref":
                 sc["t_ref"] = {"mjd": 51234.5, "scale": "tcb", "format": "mjd"} if sc["t_ref"] is None or sc["t_ref"]["mjd"] != 51234.5 else None
                 must_refuse = True   # rows referred to another epoch are other orbits
+            elif kind == "dtype":
+                # same columns and units, other floating-point width: refusing is fine; if it is accepted, the file has to
+                # hold exactly the values that were appended (double precision appended to a single-precision file cannot)
+                sc["f4"] = not schema.get("f4")
             elif kind == "poly":
                 sc["poly"] = sc["poly"] + 1
                 must_refuse = True
             elif kind == "noff":
                 sc["noff"] = sc["noff"] + 1
                 must_refuse = True
-            new = values_from_seed(seed + 7, n, sc["cols"])
+            new = values_from_seed(seed + 7, n, sc["cols"], sc.get("f4"))
             p = self.path(k)
             h = sha(p)
             try:
@@ -300,6 +310,14 @@ def machine_factory(ctx):
             self.model[k] = (schema, merged)
             self.changed = True
             self.ops.append("append_accepted:" + kind)
+            if kind == "dtype":
+                with ctx.sut("JokerSamples.read"):
+                    r = tj.JokerSamples.read(p)
+                for c in schema["cols"]:
+                    if not np.array_equal(np.asarray(r[c].value, dtype=float), merged[c]):
+                        raise Violation("an append of %s-precision rows to a %s-precision file was accepted, but the file does not "
+                                        "hold the values that were written" % ("single" if sc["f4"] else "double",
+                                                                               "single" if schema.get("f4") else "double"), column=c)
             self.do_read(k, tolerant=sc["units"] != schema["units"])
 
         def do_read(self, k, tolerant=False):
@@ -364,6 +382,7 @@ def machine_factory(ctx):
                 rng = np.random.default_rng(seed)
             p = self.path(k)
             h = sha(p)
+            rt = 1e-6 if schema.get("f4") else 1e-14      # unit conversion of single-precision columns
             with ctx.sut("read_batch[%s]" % how):
                 out = read_batch(p, cols, key, units=units, rng=rng)
             if sha(p) != h:
@@ -377,7 +396,7 @@ def machine_factory(ctx):
                 full = np.stack([vals[c] * factor[c] for c in cols], axis=1)
                 used = set()
                 for r in out:
-                    hit = [i for i in range(n) if i not in used and np.allclose(full[i], r, rtol=1e-14, atol=0, equal_nan=True)
+                    hit = [i for i in range(n) if i not in used and np.allclose(full[i], r, rtol=rt, atol=0, equal_nan=True)
                            and np.array_equal(np.signbit(full[i]), np.signbit(r))]
                     if not hit:
                         raise Violation("read_batch(int) returned a row that is not a (not yet used) row of the file", row=r)
@@ -387,7 +406,7 @@ def machine_factory(ctx):
                     raise Violation("read_batch[%s]: wrong shape" % how, shape=out.shape, rows=len(rows), cols=len(cols))
                 for j, c in enumerate(cols):
                     want = vals[c][rows] * factor[c]
-                    ok = np.array_equal(out[:, j], want) if factor[c] == 1.0 else np.allclose(out[:, j], want, rtol=1e-14, atol=0)
+                    ok = np.array_equal(out[:, j], want) if factor[c] == 1.0 else np.allclose(out[:, j], want, rtol=rt, atol=0)
                     if not ok:
                         raise Violation("read_batch[%s] did not return the requested rows of column %s (in the requested "
                                         "order and units)" % (how, c), rows=rows[:10], got=out[:10, j], want=want[:10])
@@ -395,7 +414,7 @@ def machine_factory(ctx):
 
         def do_group(self, seed, n, append):
             schema = schema_from_seed(seed)
-            vals = values_from_seed(seed + 1, n, schema["cols"])
+            vals = values_from_seed(seed + 1, n, schema["cols"], schema.get("f4"))
             p = os.path.join(self.dir, "group.hdf5")
             with ctx.sut("write/read through an h5py group"):
                 with h5py.File(p, "w") as f:
@@ -403,21 +422,32 @@ def machine_factory(ctx):
                     make_samples(schema, vals).write(grp)
                     f.create_group("other")["x"] = np.arange(3)
                 if append:
-                    more = values_from_seed(seed + 2, n, schema["cols"])
+                    more = values_from_seed(seed + 2, n, schema["cols"], schema.get("f4"))
                     with h5py.File(p, "a") as f:
                         make_samples(schema, more).write(f["star-1"], append=True)
                     vals = {c: np.concatenate([vals[c], more[c]]) for c in schema["cols"]}
+                schema2 = schema_from_seed(seed + 11)
+                vals2 = values_from_seed(seed + 12, n + 1, schema2["cols"], schema2.get("f4"))
+                with h5py.File(p, "a") as f:
+                    make_samples(schema2, vals2).write(f.create_group("star-2"))
                 with h5py.File(p, "r") as f:
                     r = tj.JokerSamples.read(f["star-1"])
+                    r2 = tj.JokerSamples.read(f["star-2"])
                     other = np.asarray(f["other"]["x"])
+                # the same tables addressed by file name + path inside the file
+                rp = tj.JokerSamples.read(p, path="star-1/samples")
+                rp2 = tj.JokerSamples.read(p, path="star-2/samples")
             compare(r, schema, vals, "group round trip")
+            compare(r2, schema2, vals2, "group round trip (second group of the file)")
+            compare(rp, schema, vals, "read(filename, path=...) of a table written through a group")
+            compare(rp2, schema2, vals2, "read(filename, path=...) of the second table of the file")
             if not np.array_equal(other, np.arange(3)):
                 raise Violation("writing into a group damaged a sibling dataset")
             self.ops.append("group")
 
         def do_fits(self, seed, n):
             schema = schema_from_seed(seed)
-            vals = values_from_seed(seed + 1, n, schema["cols"])
+            vals = values_from_seed(seed + 1, n, schema["cols"], schema.get("f4"))
             p = os.path.join(self.dir, "t.fits")
             with ctx.sut("FITS write/read"):
                 make_samples(schema, vals).write(p, overwrite=True)
@@ -432,5 +462,54 @@ def machine_factory(ctx):
     return Files
 
 
+# ----------------------------------------------------------------------------- random subsets of large files
+@st.composite
+def random_batch_cases(draw):
+    n = draw(st.sampled_from([150, 300, 1000, 5000, 20000]))
+    lo = max(1, n // 100)
+    size = draw(st.one_of(st.integers(1, lo), st.integers(max(1, lo - 3), lo + 3), st.integers(1, min(n, 400)),
+                          st.integers(max(1, (9 * lo) // 10), lo)))
+    return {"n": n, "size": min(size, n), "seed": draw(st.integers(0, 2**32 - 1)), "cols": draw(st.sampled_from([["P"], ["e", "P"]]))}
+
+
+def random_batch_body_factory(ctx):
+    import astropy.units as u
+
+    import thejoker as tj
+    from thejoker.utils import read_batch
+
+    files = {}
+
+    def get(n):
+        if n not in files:
+            s = tj.JokerSamples()
+            s["P"] = (np.arange(n, dtype=float) + 1.0) * u.day
+            s["e"] = (np.arange(n, dtype=float) % 97) / 100.0
+            files[n] = os.path.join(ctx.workdir, "big%d.hdf5" % n)
+            s.write(files[n], overwrite=True)
+        return files[n]
+
+    def body(case):
+        n, size = case["n"], case["size"]
+        with ctx.sut("read_batch(int)"):
+            out = np.asarray(read_batch(get(n), case["cols"], size, rng=np.random.default_rng(case["seed"])))
+        if out.shape != (size, len(case["cols"])):
+            raise Violation("read_batch(int): wrong shape", shape=out.shape, requested=size)
+        P = out[:, case["cols"].index("P")]
+        rows = np.rint(P).astype(int) - 1
+        if np.any(rows < 0) or np.any(rows >= n) or not np.array_equal(P, rows + 1.0):
+            raise Violation("read_batch(int) returned rows that are not rows of the file")
+        if len(set(rows.tolist())) != size:
+            dup = sorted(r for r in set(rows.tolist()) if (rows == r).sum() > 1)
+            raise Violation("read_batch(int): the random subset contains a row more than once", repeated_rows=dup[:10],
+                            file_rows=n, requested=size)
+        if "e" in case["cols"] and not np.array_equal(out[:, case["cols"].index("e")], (rows % 97) / 100.0):
+            raise Violation("read_batch(int): columns of one returned row come from different rows of the file")
+        ctx.note_case(case, size > 1, ["random subset: size %s rows/100" % ("<" if size < n // 100 else ">="), "file rows=%d" % n])
+
+    return body
+
+
 def run(ctx):
+    ctx.search("random_batch", random_batch_cases(), random_batch_body_factory(ctx), quick=300, thorough=6000)
     ctx.machine("files", lambda: machine_factory(ctx), quick=400, thorough=6000, steps_quick=25, steps_thorough=50)
